@@ -34,7 +34,7 @@ impl Property for C12 {
         "C12"
     }
     fn rule(&self) -> String {
-        "sessions over a root r.td that includes i.td, where disk texts and editor buffers differ observably (each variant of i.td declares a differently named class, each variant of r.td uses one buffer class and the disk class, so outline and 'class not found' diagnostics reveal which text was analysed). Events: open/change of r.td or i.td with one of two buffer variants (a change of an unopened document is an open): every sequence of length <= 4 (thorough <= 5) over the 4 (document, variant) events exhaustively. Reference session model: texts = disk overlaid by the buffers of opened documents, root = last touched document. After every step the last published diagnostics of every file of the model's workspace and the documentSymbol answer of every open document in it must equal a fresh ide-level analysis over the model's texts. distinct = digest of the event sequence; non-trivial = a step at which an open included document's buffer differs from disk while the other document is (re)analysed".into()
+        "sessions over a root r.td that includes i.td, where disk texts and editor buffers differ observably (each variant of i.td declares a differently named class, each variant of r.td uses one buffer class and the disk class, so outline and 'class not found' diagnostics reveal which text was analysed). Events: open/change of r.td or i.td with one of two buffer variants (a change of an unopened document is an open): every sequence of length <= 4 (thorough <= 5) over the 4 (document, variant) events exhaustively, each with i.td present on disk and with i.td never saved (no file on disk). Reference session model: texts = disk overlaid by the buffers of opened documents, root = last touched document. After every step the last published diagnostics of every file of the model's workspace and the documentSymbol answer of every open document in it must equal a fresh ide-level analysis over the model's texts. distinct = digest of the event sequence; non-trivial = a step at which an open included document's buffer differs from disk while the other document is (re)analysed".into()
     }
     fn assumptions(&self) -> Vec<String> {
         vec!["the disk is never modified during a session; the model takes the last touched document as root because that is what didOpen/didChange do".into()]
@@ -48,6 +48,10 @@ impl Property for C12 {
                 loop {
                     let ev: Vec<_> = idx.iter().map(|e| json!([e / 2, e % 2])).collect();
                     if !emit(json!({"kind": "buffer-session", "events": ev})) {
+                        return;
+                    }
+                    // the same session with an included document that was never saved (no file on disk)
+                    if !emit(json!({"kind": "buffer-session", "events": ev, "no_disk_i": true})) {
                         return;
                     }
                     let mut k = len;
@@ -75,11 +79,14 @@ impl Property for C12 {
     fn run_case(&self, _ctx: &Ctx, case: &Case) -> Verdict {
         let Some(events) = case["events"].as_array() else { return Verdict::Skip("malformed-case") };
         let Some(mut s) = LspSession::start() else { return Verdict::Skip("initialize-failed") };
+        let no_disk_i = case["no_disk_i"].as_bool() == Some(true);
         s.tw.write("r.td", DISK_R);
-        s.tw.write("i.td", DISK_I);
         let mut model: BTreeMap<String, String> = BTreeMap::new();
         model.insert("r.td".into(), DISK_R.into());
-        model.insert("i.td".into(), DISK_I.into());
+        if !no_disk_i {
+            s.tw.write("i.td", DISK_I);
+            model.insert("i.td".into(), DISK_I.into());
+        }
         let mut nontrivial = false;
         let mut verdict = None;
         for (step, ev) in events.iter().enumerate() {
@@ -89,7 +96,7 @@ impl Property for C12 {
             };
             let (doc, b) = (doc as usize % 2, b as usize % 2);
             let text = buffer_text(doc, b);
-            if doc == 0 && s.opened.contains("i.td") && model["i.td"] != DISK_I {
+            if doc == 0 && s.opened.contains("i.td") && model.get("i.td").map(|t| t != DISK_I).unwrap_or(false) {
                 nontrivial = true;
             }
             model.insert(name(doc).to_string(), text.clone());
